@@ -329,3 +329,71 @@ Theorem model_agrees_on_model_str : forall s,
 Proof.
   intros s. cbn [model_agrees]. rewrite !beq_bytes_refl, sql_string_roundtrip, beq_bytes_refl. reflexivity.
 Qed.
+
+(* ------------------------------------------------------------------ *)
+(* 8. Decimal literals: sign, integer part and every fraction digit (the scale) survive. *)
+Lemma digits_no_dot f : forall n, Forall (fun c => 48 <= c /\ c <= 57) (digits f n).
+Proof.
+  induction f as [|f IH]; intros n; [constructor|]. cbn [digits].
+  destruct (n <? 10) eqn:E.
+  - apply N.ltb_lt in E. constructor; [lia | constructor].
+  - apply Forall_app. split; [apply IH|]. constructor; [|constructor].
+    pose proof (N.mod_lt n 10 ltac:(discriminate)) as Hm. revert Hm. generalize (n mod 10). intros r Hm. lia.
+Qed.
+
+Lemma split_dot_digits s : forall acc rest, Forall (fun c => 48 <= c /\ c <= 57) s ->
+  split_dot (s ++ 46 :: rest) acc = (rev acc ++ s, Some rest).
+Proof.
+  induction s as [|c s IH]; intros acc rest HF.
+  - cbn [app split_dot]. rewrite N.eqb_refl, app_nil_r. reflexivity.
+  - inversion HF as [|c' s' [H1 H2] HF']; subst. cbn [app split_dot].
+    destruct (c =? 46) eqn:E; [apply N.eqb_eq in E; lia|].
+    rewrite IH by exact HF'. cbn [rev]. rewrite <- app_assoc. reflexivity.
+Qed.
+
+Lemma split_dot_nodot s : forall acc, Forall (fun c => 48 <= c /\ c <= 57) s ->
+  split_dot s acc = (rev acc ++ s, None).
+Proof.
+  induction s as [|c s IH]; intros acc HF.
+  - cbn [split_dot]. rewrite app_nil_r. reflexivity.
+  - inversion HF as [|c' s' [H1 H2] HF']; subst. cbn [split_dot].
+    destruct (c =? 46) eqn:E; [apply N.eqb_eq in E; lia|].
+    rewrite IH by exact HF'. cbn [rev]. rewrite <- app_assoc. reflexivity.
+Qed.
+
+Lemma frac_digits_map f : Forall (fun d => d < 10) f -> frac_digits (map (fun d => 48 + d) f) = Some f.
+Proof.
+  induction 1 as [|d f Hd HF IH]; [reflexivity|]. cbn [map frac_digits].
+  destruct (digit_char_ok d Hd) as [-> ->]. rewrite IH. reflexivity.
+Qed.
+
+Lemma fmt_nat_parse_nat n : parse_nat (fmt_nat n) = Some n.
+Proof.
+  pose proof (fmt_nat_parse n) as H. unfold fmt_nat in *.
+  destruct (digits_head (N.to_nat (N.log2 n)) n) as [c [t [HD _]]]. rewrite HD in *. exact H.
+Qed.
+
+Lemma sign_split c t x : (c =? 45) = false ->
+  (match (c :: t) ++ x with c0 :: t0 => if c0 =? 45 then (true, t0) else (false, (c :: t) ++ x) | [] => (false, []) end)
+  = (false, (c :: t) ++ x).
+Proof. intros H. cbn [app]. rewrite H. reflexivity. Qed.
+
+Theorem dec_fmt_roundtrip : forall x, Forall (fun d => d < 10) (d_frac x) -> parse_dec (fmt_dec x) = Some x.
+Proof.
+  intros [neg ip frac] HF. cbn [d_frac] in HF. unfold fmt_dec, parse_dec. cbn [d_neg d_int d_frac].
+  pose proof (digits_no_dot (S (N.to_nat (N.log2 ip))) ip) as HD. fold (fmt_nat ip) in HD.
+  assert (HH : exists c t, fmt_nat ip = c :: t /\ (c =? 45) = false).
+  { unfold fmt_nat. destruct (digits_head (N.to_nat (N.log2 ip)) ip) as [c [t [E [E1 _]]]]. exists c, t. split; assumption. }
+  destruct HH as [c [t [EN EC]]].
+  destruct neg; cbn [app].
+  - rewrite N.eqb_refl. destruct frac as [|d frac].
+    + rewrite app_nil_r, split_dot_nodot by exact HD. cbn [rev app]. rewrite fmt_nat_parse_nat. reflexivity.
+    + rewrite split_dot_digits by exact HD. cbn [rev app]. rewrite fmt_nat_parse_nat.
+      rewrite frac_digits_map by exact HF. reflexivity.
+  - destruct frac as [|d frac].
+    + rewrite app_nil_r. rewrite EN. cbv iota. rewrite EC. rewrite <- EN.
+      rewrite split_dot_nodot by exact HD. cbn [rev app]. rewrite fmt_nat_parse_nat. reflexivity.
+    + rewrite EN. cbn [app]. rewrite EC. change (c :: t ++ 46 :: map (fun d0 => 48 + d0) (d :: frac)) with ((c :: t) ++ 46 :: map (fun d0 => 48 + d0) (d :: frac)).
+      rewrite <- EN. rewrite split_dot_digits by exact HD. cbn [rev app]. rewrite fmt_nat_parse_nat.
+      rewrite frac_digits_map by exact HF. reflexivity.
+Qed.
